@@ -225,6 +225,10 @@ func (e *DocumentError) pointerToTheErrorCharacter() string {
 	spaces := content[begin:].CountSpacesFromLeft()
 
 	i := int(e.index) - int(begin) - spaces
+	if i < 0 {
+		// The error is inside the leading spaces that SourceSubString trims.
+		i = 0
+	}
 	return strings.Repeat("-", i) + "^"
 }
 
